@@ -3,6 +3,7 @@
 # (in a scratch worktree of /repo, never in /repo itself) and record what was detected.
 export GOFLAGS=-mod=mod GOPROXY=off GOSUMDB=off GOTOOLCHAIN=local
 WT=/tmp/mx_repo
+VERIF=${VERIF:-/verif}
 git -C /repo worktree remove --force $WT 2>/dev/null; git -C /repo worktree prune
 git -C /repo worktree add -q --detach $WT HEAD || exit 2
 seeds=("$@"); [ ${#seeds[@]} -eq 0 ] && seeds=($(ls /verif/seeded | grep -E '^C[0-9]+-[A-Z]$'))
@@ -11,7 +12,7 @@ for s in "${seeds[@]}"; do
   p=${s%%-*}
   (cd $WT && git checkout -q -- . && git apply /verif/seeded/$s/patch.diff) || { echo "$s apply-failed"; continue; }
   t0=$(date +%s)
-  /verif/bin/gosmt check $p --tier quick -repo $WT -verif /verif -evidence /verif/out/matrix/$s.evidence.json > /verif/out/matrix/$s.log 2>&1; rc=$?
+  $VERIF/bin/gosmt check $p --tier quick -repo $WT -verif $VERIF -evidence /verif/out/matrix/$s.evidence.json > /verif/out/matrix/$s.log 2>&1; rc=$?
   t1=$(date +%s)
   labels=$(grep -o '# [A-Za-z0-9_]*/[^:]*:' /verif/out/matrix/$s.log | sort -u | tr '\n' ' ')
   echo "$s property=$p exit=$rc secs=$((t1-t0)) $labels"
